@@ -1251,6 +1251,69 @@ Proof.
         intros [Hin|Hin]; [congruence|exact (Hp0 Hin)].
 Qed.
 
+(* the step the composite needs: whatever the schedule was, once the deadline has been reached or
+   the inner call has completed (with any outcome), the NEXT poll of a polled, un-cancelled call
+   resolves it *)
+Lemma next_poll_resolves c evs i a :
+  let s := run c evs in
+  arrival s i = Some a -> ~ In (Drop i) evs ->
+  (deadline c i a <= now s \/ gate s i <> None) ->
+  cs (step_st c s (Poll i)) i = Done.
+Proof.
+  intros s Ha Hnd Hp.
+  destruct (resolved_or_woken c evs i a Ha Hnd Hp) as [Hd|[Hc _]]; fold s in Hd || fold s in Hc.
+  - apply step_done. exact Hd.
+  - destruct (gate s i) eqn:Eg.
+    + rewrite step_st_poll. unf. rewrite callers_on_same.
+      apply (l_ready_resolves c i _ _ (deadline c i a) (linv_run c evs i) Hc). fold s. unf. congruence.
+    + destruct Hp as [Hp|Hp]; [|congruence].
+      apply (timeout_now c evs i Eg). left. exists (deadline c i a). split; assumption.
+Qed.
+
+(* ... and what it answers: the inner outcome if the inner call has completed (ok / error), else
+   Timeout *)
+Lemma next_poll_answer c evs i a :
+  let s := run c evs in
+  arrival s i = Some a -> ~ In (Drop i) evs -> cs s i <> Done ->
+  (forall o, gate s i = Some o -> o <> OPanic -> snd (step c s (Poll i)) = result i o) /\
+  (gate s i = None -> deadline c i a <= now s -> snd (step c s (Poll i)) = timed_out).
+Proof.
+  intros s Ha Hnd Hnot.
+  destruct (deadline_from_first_poll c evs i) as (_ & H2 & H3 & _). fold s in H2, H3.
+  assert (Hc : cs s i = Active (deadline c i a)).
+  { destruct (cs s i) as [|dl| |] eqn:Ec.
+    - exfalso. apply (proj2 (H2 a Ha)). reflexivity.
+    - destruct (H3 dl eq_refl) as (a' & Ha' & ->). congruence.
+    - congruence.
+    - exfalso. apply Hnd. apply (run_dropped c evs i). exact Ec. }
+  split.
+  - intros o Hg Ho. apply (result_now c evs i o Hg Ho).
+    destruct (cancel c); [left|right]; (split; [reflexivity|]); eauto.
+  - intros Hg Hd. apply (timeout_now c evs i Hg). left. eauto.
+Qed.
+
+(* the composite under the discipline "poll when woken": in a run in which caller i is polled
+   whenever woken, at any point where its call (polled before, not cancelled) is due or its inner
+   call has completed, either the call is already resolved or the very next event is its poll and
+   resolves it - no time passes *)
+Lemma polled_when_woken_resolves c i evs e rest a :
+  let s := run c evs in
+  polled_when_woken c i (evs ++ e :: rest) ->
+  arrival s i = Some a -> ~ In (Drop i) evs ->
+  (deadline c i a <= now s \/ gate s i <> None) ->
+  cs s i = Done \/
+  (e = Poll i /\ cs (run c (evs ++ [e])) i = Done /\ now (run c (evs ++ [e])) = now s).
+Proof.
+  intros s Hp Ha Hnd Hov.
+  destruct (resolved_or_woken c evs i a Ha Hnd Hov) as [Hd|[Hc Hw]]; [left; exact Hd|right].
+  assert (He : e = Poll i).
+  { destruct evs as [|e0 evs0] using rev_ind; [discriminate|].
+    apply (Hp evs0 e0 e rest); [rewrite <- app_assoc; reflexivity|exact Hw]. }
+  subst e. split; [reflexivity|]. rewrite run_snoc. split.
+  - apply (next_poll_resolves c evs i a Ha Hnd Hov).
+  - rewrite step_st_poll. reflexivity.
+Qed.
+
 Lemma deadline_bounds c i a :
   a + tmo c i <= deadline c i a /\ deadline c i a < a + tmo c i + Z.max 1 (gran c) /\
   (gran c <= 1 -> deadline c i a = a + tmo c i) /\
@@ -1378,3 +1441,28 @@ Example ex_us_tick :
   snd (step c_us (run c_us [Poll 0; Advance 1999; Poll 0; Advance 1]) (Poll 0)) = timed_out /\
   deadline c_us 0 500 = 2000 /\ deadline c_cancel 0 7 = 17.
 Proof. vm_compute. repeat split; reflexivity. Qed.
+
+(* the hypotheses of polled_when_woken_resolves at the point where caller 0 of ex_evs is due *)
+Example ex_due_point :
+  let pre := [Poll 0; Advance 4; Poll 1; Advance 6] in
+  ex_evs = pre ++ Poll 0 :: [Advance 3; Complete 1 OOk; Poll 1; Advance 30] /\
+  arrival (run c_cancel pre) 0%nat = Some 0 /\ cs (run c_cancel pre) 0%nat = Active 10 /\
+  deadline c_cancel 0 0 <= now (run c_cancel pre) /\ ~ In (Drop 0) pre.
+Proof.
+  repeat split; try (vm_compute; reflexivity); try (vm_compute; discriminate).
+  cbn. intros [H|[H|[H|[H|[]]]]]; discriminate.
+Qed.
+
+(* a prompt, punctual schedule in the microsecond unit (deadline 1500 us, timer tick 2000 us) *)
+Example ex_us_prompt_punctual :
+  let evs := [Poll 0; Advance 1500; Advance 499; Advance 1; Poll 0] in
+  prompt c_us 0 evs /\ punctual c_us 0 evs /\ cs (run c_us evs) 0%nat = Done.
+Proof.
+  unfold prompt, polled_when_woken, punctual.
+  repeat split; try (vm_compute; reflexivity).
+  - intros pre e e' post H Hw.
+    symmetry in H. walk_splits pre H ltac:(injection H as -> -> _; vm_compute in Hw; first [discriminate Hw|reflexivity]).
+  - intros pre d post dl H Hc Hlt.
+    symmetry in H. walk_splits pre H ltac:(try discriminate H; injection H as -> _; vm_compute in Hc; try discriminate Hc;
+                            injection Hc as <-; vm_compute; discriminate).
+Qed.
